@@ -43,3 +43,37 @@ Definition dyn_ctl (dsys : nat) (pts : list (ptensor GK)) (hist : list (add gmat
        (fun k => option_map (@matT GK) (ctl_post dsys hist dt start (Z.of_nat k)))
        (fun k => @matT GK (fst (pr k))) (fun k => @matT GK (snd (pr k)))
        record_all N rho0).
+
+(* ---- process tensor files (C16/C17) --------------------------------------- *)
+From OQ Require Import Model.PTFile.
+Definition ftensor := PTFile.tensor G.
+Definition fspt := spt G (Z * Z * Z) Z.
+Definition flat_val (v : option G) : list Z :=
+  match v with Some z => [1%Z; fst z; snd z] | None => [0%Z; 0%Z; 0%Z] end.
+Definition flat_tensor (t : ftensor) : list Z :=
+  Z.of_nat (length (fst t)) :: map Z.of_nat (fst t) ++ flat_map flat_val (snd t).
+Definition flat_otensor (o : option ftensor) : list Z :=
+  match o with None => [0%Z] | Some t => 1%Z :: flat_tensor t end.
+Definition flat_spt (r : res fspt) : list Z :=
+  match r with
+  | Ok p =>
+    [1%Z; Z.of_nat (s_hs _ _ _ p)]
+    ++ (match s_dt _ _ _ p with None => [0%Z] | Some (s, m, e) => [1%Z; s; m; e] end)
+    ++ flat_otensor (s_tin _ _ _ p) ++ flat_otensor (s_tout _ _ _ p)
+    ++ [s_name _ _ _ p; s_desc _ _ _ p] ++ flat_otensor (s_init _ _ _ p)
+    ++ [Z.of_nat (length (s_mpos _ _ _ p))] ++ flat_map flat_tensor (s_mpos _ _ _ p)
+    ++ [Z.of_nat (length (s_caps _ _ _ p))] ++ flat_map flat_tensor (s_caps _ _ _ p)
+  | _ => [0%Z]
+  end.
+Definition mkspt hs dt tin tout name desc init mpos caps : fspt :=
+  Build_spt G (Z*Z*Z) Z hs dt tin tout name desc init mpos caps.
+Definition roundtrip_flat (p : fspt) : list Z := flat_spt (import_simple _ _ _ (export _ _ _ p)).
+(* state of the file after the first n writer operations, read back *)
+Definition prefix_flat (p : fspt) (n : nat) : list Z :=
+  let f := fold_left (wstep _ _ _) (firstn n (export_ops _ _ _ p)) (create _ _ _ p) in
+  (if f_writing _ _ _ f then 1%Z else 0%Z) :: flat_spt (import_simple _ _ _ f).
+Definition mode_table : list Z :=
+  flat_map (fun m => flat_map (fun e =>
+     [match open_mode m e with Created => 0 | Replaced => 1 | OpenedExisting => 2 | Refused => 3 end]%Z)
+     [false; true]) [MRead; MWrite; MOverwrite]
+  ++ flat_map (fun m => flat_map (fun g => [if removeable m g then 1 else 0]%Z) [false; true]) [MRead; MWrite; MOverwrite].
